@@ -13,8 +13,8 @@ fn core() -> &'static Vec<Prog> {
         use Ord_::*;
         let mut v = Vec::new();
         let st = |loc, val, ord| Op::Store { loc, val, ord };
-        let aw = |loc, ord| Op::Await { loc, ord, spin_hint: false, min: 1 };
-        let awge = |loc, ord, min| Op::Await { loc, ord, spin_hint: false, min };
+        let aw = |loc, ord| Op::Await { loc, ord, spin_hint: false, min: 1, ann: None };
+        let awge = |loc, ord, min| Op::Await { loc, ord, spin_hint: false, min, ann: None };
         let f = |ord| Op::Fence { ord };
         let cw = Op::CellWrite { c: 0 };
         let cr = Op::CellRead { c: 0 };
@@ -121,7 +121,7 @@ pub fn prog_at(tier: u8, seed: u64, idx: usize) -> Prog {
                     let stored_elsewhere = (0..p.threads.len()).any(|u| u != th && p.threads[u].iter().any(|o| matches!(o, Op::Store { loc: l, .. } | Op::Swap { loc: l, .. } if *l == loc)));
                     let no_await_yet = !p.has_await();
                     if stored_elsewhere && no_await_yet && rng.chance(1, 2) {
-                        p.threads[th][i] = Op::Await { loc, ord, spin_hint: false, min: 1 };
+                        p.threads[th][i] = Op::Await { loc, ord, spin_hint: false, min: 1, ann: None };
                     }
                 }
             }
